@@ -7,6 +7,11 @@ E1_NOTE = ("Trusted: LLVM 14 mid-end soundness, libstdc++, correctness of the ob
 E1_RULE = ("E1: one obligation per (clause, container kind, rank, axis/case); non-trivial = the obligation point is reachable in the optimised "
            "declare-mode IR; distinct by (driver function, obligation id, integer parameters)")
 
+E2_NOTE = ("Trusted: clang 14 front end (names resolved, templates parsed), the canonicaliser in tools/nmlint.cc, and the reviewed oracle/exception "
+           "tables under /verif/tools. Rules are over the resolved AST of the template definitions, not text; a refactor that keeps the idiom "
+           "(renamed locals, extra local variables, reordered independent statements) stays silent, a new idiom must be added to the table with a reason.")
+E2_TECH = "static: custom libTooling fact extractor + rules over canonical AST facts (forwarding / table agreement)"
+
 PROPS = {
  "C01": dict(
     level="proof",
@@ -65,12 +70,13 @@ PROPS = {
  ),
  "C15": dict(
     level="proof",
-    claim="Proof of the value/Nothing boundary of broadcast_shape (all rank pairs up to 3x3) and of moveaxis with in-range versus out-of-range compile-time axes; other argument checks are not decided by this engine.",
-    note=E1_NOTE,
-    technique=E1_TECH,
+    claim="Proof of the value/Nothing boundary of broadcast_shape (all rank pairs up to 3x3) and of moveaxis with in-range versus out-of-range compile-time axes; plus, over ~6000 instantiated functions of the maybe-lifting layer (index, view, eval, kernel helper, isequal/isclose), every dereference of a maybe-typed expression is dominated by the true edge of a truth test on that expression, and every integer division in index/ and view/ has a validated or role-justified divisor (the reshape divisor is tied to the zero-extent validation). The value/Nothing boundary of the remaining operations is not decided.",
+    note=E1_NOTE + " " + E2_NOTE,
+    technique=E1_TECH + " + CFG typestate/dominance rules (test-before-dereference, zero-guarded division) on instantiations",
     e1=[dict(tu="c06_broadcast.cpp"), dict(tu="c03_rearrange.cpp")],
-    rule=E1_RULE,
-    explanation="value exactly when NumPy accepts, Nothing exactly when NumPy raises, for the listed operations.",
+    e2=[dict(rule="R-MAYBE-DIV")],
+    rule=E1_RULE + "; E2: one instance per dereference of a maybe-typed expression / per integer division site in the instantiated lifting functions (drivers/maybe_inst.cpp)",
+    explanation="value exactly when NumPy accepts, Nothing exactly when NumPy raises, for the listed operations; an empty optional is never dereferenced = every dereference is dominated by a truth test of the same expression (typestate rule on the CFG); no division by an unvalidated user-derived divisor.",
     not_decided="pad/tile/repeat argument validity, dynamic ranks, propagation through pipelines",
     assumptions=[],
  ),
@@ -109,10 +115,6 @@ PROPS = {
  ),
 }
 
-E2_NOTE = ("Trusted: clang 14 front end (names resolved, templates parsed), the canonicaliser in tools/nmlint.cc, and the reviewed oracle/exception "
-           "tables under /verif/tools. Rules are over the resolved AST of the template definitions, not text; a refactor that keeps the idiom "
-           "(renamed locals, extra local variables, reordered independent statements) stays silent, a new idiom must be added to the table with a reason.")
-E2_TECH = "static: custom libTooling fact extractor + rules over canonical AST facts (forwarding / table agreement)"
 
 PROPS["C07"] = dict(
     level="other",
